@@ -165,24 +165,21 @@ theorem sendO_inv {o : KcpO} (h : OwnInv o) (b : Bytes) : OwnInv (sendO o b).o :
 
 theorem flushO_inv {o : KcpO} (h : OwnInv o) (full : Bool) (now : U32) : OwnInv (flushO o full now).o := by
   refine ⟨flushO_sync h.sync full now, ?_⟩
-  obtain ⟨h1, _, h3, _, _⟩ := flush_queues o.k full now
-  have hlen : (o.k.flush full now).k.snd_buf.length = (o.sb ++ o.sq.take (flushAd o.k now).count).length := by
-    rw [h3, h.sync.sb, er_length, List.length_append, List.length_take]
-    rw [h.sync.sq, er_length] at h1
-    omega
-  have hc : ∀ id, cnt id (reattach (o.k.flush full now).k.snd_buf (o.sb ++ o.sq.take (flushAd o.k now).count)) +
+  obtain ⟨l1, l2⟩ := flushO_lens h.sync full now
+  have hc : ∀ id, cnt id (reattach (flushAd o.k now).buf (o.sb ++ o.sq.take (flushAd o.k now).count)) +
       (cnt id (o.sq.drop (flushAd o.k now).count) + cnt id o.rb + cnt id o.rq) = held o id := by
     intro id
-    rw [cnt_reattach id _ _ hlen, cnt_append]
+    rw [cnt_reattach id _ _ l1, cnt_append]
     have := cnt_take_drop id o.sq (flushAd o.k now).count
     unfold held; omega
-  have h0 : W o.gh (fun id => cnt id (reattach (o.k.flush full now).k.snd_buf (o.sb ++ o.sq.take (flushAd o.k now).count)) +
+  have h0 : W o.gh (fun id => cnt id (reattach (flushAd o.k now).buf (o.sb ++ o.sq.take (flushAd o.k now).count)) +
       (cnt id (o.sq.drop (flushAd o.k now).count) + cnt id o.rb + cnt id o.rq)) := h.w.congr hc
   unfold flushO
   simp only []
   split
-  · exact (useUnacked_W _ _ _ h0).congr (fun id => by unfold held; simp only []; omega)
-  · exact h0.congr (fun id => by unfold held; simp only []; omega)
+  · exact (useSent_W _ _ _ _ _ _ h0).congr
+      (fun id => by unfold held; simp only []; rw [cnt_reattach id _ _ l2]; omega)
+  · exact h0.congr (fun id => by unfold held; simp only []; rw [cnt_reattach id _ _ l2]; omega)
 
 /-! #### the parse loop of Input -/
 
